@@ -322,6 +322,149 @@ theorem untrack_from (s : St) (ps : List Path) : CacheFrom s (s.untrack ps).1 :=
       exact Or.inl (h1 ▸ this)
     · exact cacheFrom_of_eq h1
 
+/-! ## untrack --restore-versions -/
+
+/-- every version of a target is among the items to copy -/
+theorem restoreItems_covers (s : St) (ts : List Ent) (a : Addr) (h : a ∈ ts.flatMap s.versionsOf) :
+    ∃ p, (p, a) ∈ s.restoreItems ts := by
+  obtain ⟨e, he, ha⟩ := List.mem_flatMap.mp h
+  unfold St.versionsOf at ha
+  cases hr : s.recs e with
+  | none => simp [hr] at ha
+  | some r =>
+    simp only [hr, List.mem_map] at ha
+    obtain ⟨d, hd, rfl⟩ := ha
+    refine ⟨r.path, List.mem_flatMap.mpr ⟨e, he, ?_⟩⟩
+    simp only [hr, List.mem_map]
+    exact ⟨d, hd, rfl⟩
+
+/-- every item to copy is a version of a target, named after the target's path -/
+theorem restoreItems_sound (s : St) (ts : List Ent) (p : Path) (a : Addr) (h : (p, a) ∈ s.restoreItems ts) :
+    a ∈ ts.flatMap s.versionsOf ∧ ∃ e r, e ∈ ts ∧ s.recs e = some r ∧ r.path = p := by
+  obtain ⟨e, he, ha⟩ := List.mem_flatMap.mp h
+  cases hr : s.recs e with
+  | none => simp [hr] at ha
+  | some r =>
+    simp only [hr, List.mem_map, Prod.mk.injEq] at ha
+    obtain ⟨d, hd, rfl, rfl⟩ := ha
+    refine ⟨List.mem_flatMap.mpr ⟨e, he, ?_⟩, e, r, he, hr, rfl⟩
+    unfold St.versionsOf
+    simp only [hr, List.mem_map]
+    exact ⟨d, hd, rfl⟩
+
+/-- when every copy succeeded, each listed version was in the cache and was written out with the
+    object's bytes -/
+theorem restoreCopies_all (s : St) (bl : List (Path × Addr)) (l : List (Path × Addr))
+    (hok : (s.restoreCopies bl l).2 = true) :
+    ∀ x ∈ l, ∃ o, s.cache x.2 = some o ∧ (x.1, x.2, o.b) ∈ (s.restoreCopies bl l).1 ∧ x ∉ bl := by
+  induction l with
+  | nil => intro a ha; cases ha
+  | cons x xs ih =>
+    intro a ha
+    unfold St.restoreCopies at hok ⊢
+    cases hx : s.cache x.2 with
+    | none => simp [hx] at hok
+    | some o =>
+      simp only [hx] at hok ⊢
+      by_cases hb : x ∈ bl
+      · simp [hb] at hok
+      · simp only [hb, if_false] at hok ⊢
+        rcases List.mem_cons.mp ha with rfl | hin
+        · exact ⟨o, hx, by simp, hb⟩
+        · obtain ⟨o', h1, h2, h3⟩ := ih hok a hin
+          exact ⟨o', h1, List.mem_cons_of_mem _ h2, h3⟩
+
+/-- whatever is written is a listed version, byte-for-byte the cache object -/
+theorem restoreCopies_sound (s : St) (bl : List (Path × Addr)) (l : List (Path × Addr)) :
+    ∀ p a b, (p, a, b) ∈ (s.restoreCopies bl l).1 → (p, a) ∈ l ∧ ∃ o, s.cache a = some o ∧ o.b = b := by
+  induction l with
+  | nil => intro p a b h; simp [St.restoreCopies] at h
+  | cons x xs ih =>
+    intro p a b h
+    unfold St.restoreCopies at h
+    cases hx : s.cache x.2 with
+    | none => simp [hx] at h
+    | some o =>
+      simp only [hx] at h
+      by_cases hb : x ∈ bl
+      · simp [hb] at h
+      · simp only [hb, if_false, List.mem_cons, Prod.mk.injEq] at h
+        rcases h with ⟨rfl, rfl, rfl⟩ | hin
+        · exact ⟨by simp, o, hx, rfl⟩
+        · obtain ⟨h1, h2⟩ := ih p a b hin
+          exact ⟨List.mem_cons_of_mem _ h1, h2⟩
+
+/-- on success `untrack --restore-versions` ends in the state of plain `untrack` -/
+theorem untrackRestore_ok (s : St) (ps : List Path) (bl : List (Path × Addr))
+    (hok : (s.untrackRestore ps bl).1.2 = .ok) : (s.untrackRestore ps bl).1 = s.untrack ps := by
+  unfold St.untrackRestore at hok ⊢
+  unfold St.untrack
+  simp only at hok ⊢
+  split
+  · rfl
+  · rename_i hany
+    simp only [hany, Bool.false_eq_true, ↓reduceIte] at hok
+    generalize s.rematerialise (s.targetEnts ps) = res at hok ⊢
+    obtain ⟨s1, o⟩ := res
+    cases o <;> simp only at hok ⊢
+    all_goals first
+      | done
+      | (generalize s1.restoreCopies bl _ = rc at hok ⊢; obtain ⟨w, b⟩ := rc; cases b <;> simp_all; done)
+      | cases hok
+
+/-- shape of a successful run: the copies were made from a state with the cache of the start state,
+    all of them succeeded, and then exactly the deletable versions were removed -/
+theorem untrackRestore_ok_shape (s : St) (ps : List Path) (bl : List (Path × Addr))
+    (hok : (s.untrackRestore ps bl).1.2 = .ok) :
+    ∃ s1 : St, s1.cache = s.cache ∧
+      (s1.restoreCopies bl (s.restoreItems (s.targetEnts ps))).2 = true ∧
+      (s.untrackRestore ps bl).2 = (s1.restoreCopies bl (s.restoreItems (s.targetEnts ps))).1 ∧
+      (s.untrackRestore ps bl).1.1 =
+        (s.untrackDeletable (s.targetEnts ps)).foldl St.removeObj (s1.dropRecs (s.targetEnts ps)) := by
+  unfold St.untrackRestore at hok ⊢
+  simp only at hok ⊢
+  split
+  · rename_i hany
+    simp [hany] at hok
+  · rename_i hany
+    simp only [hany, Bool.false_eq_true, ↓reduceIte] at hok
+    have h1 := rematerialise_cache s (s.targetEnts ps)
+    generalize s.rematerialise (s.targetEnts ps) = res at hok h1 ⊢
+    obtain ⟨s1, o⟩ := res
+    refine ⟨s1, h1, ?_⟩
+    cases o <;> simp only at hok ⊢
+    all_goals first
+      | done
+      | (generalize s1.restoreCopies bl _ = rc at hok ⊢; obtain ⟨w, b⟩ := rc; cases b <;> simp_all; done)
+      | cases hok
+
+/-- when it does not succeed the cache is left as it was -/
+theorem untrackRestore_fail_cache (s : St) (ps : List Path) (bl : List (Path × Addr))
+    (hf : (s.untrackRestore ps bl).1.2 ≠ .ok) : (s.untrackRestore ps bl).1.1.cache = s.cache := by
+  unfold St.untrackRestore at hf ⊢
+  simp only at hf ⊢
+  split
+  · rfl
+  · rename_i hany
+    simp only [hany, Bool.false_eq_true, ↓reduceIte] at hf
+    have h1 := rematerialise_cache s (s.targetEnts ps)
+    generalize s.rematerialise (s.targetEnts ps) = res at hf h1 ⊢
+    obtain ⟨s1, o⟩ := res
+    cases o <;> simp only at hf h1 ⊢
+    · generalize s1.restoreCopies bl _ = rc at hf ⊢
+      obtain ⟨w, b⟩ := rc
+      cases b <;> simp_all
+    · generalize s1.restoreCopies bl _ = rc at hf ⊢
+      obtain ⟨w, b⟩ := rc
+      cases b <;> simp_all
+    · exact h1
+
+theorem untrackRestore_from (s : St) (ps : List Path) (bl : List (Path × Addr)) :
+    CacheFrom s (s.untrackRestore ps bl).1.1 := by
+  by_cases hok : (s.untrackRestore ps bl).1.2 = .ok
+  · rw [untrackRestore_ok s ps bl hok]; exact untrack_from s ps
+  · exact cacheFrom_of_eq (untrackRestore_fail_cache s ps bl hok)
+
 /-! ## copy / move never touch the cache -/
 
 theorem copy_cache (c : Cfg) (o : CopyOpts) (s : St) (src dst : Path) : (s.copy c o src dst).1.cache = s.cache := by
